@@ -441,8 +441,9 @@ func isNontrivial(q query) bool {
 }
 
 type driver struct {
-	w *casefile.Writer
-	r *rng.R
+	w    *casefile.Writer
+	r    *rng.R
+	long bool // blocks.go: tokens of 254..700 bytes allowed in the material being generated
 }
 
 // searchCase runs every query through pattern.Search on a memory provider and emits one case.
